@@ -30,6 +30,6 @@ ASSUME PrintT("META " \o ToJson([DefaultLife |-> DefaultLife, PermTO |-> PermTO,
 
 \* Engine A: print every edge of the state graph (also those into states already seen)
 EmitEdge ==
-  PrintT("EDGE " \o ToJson([s |-> <<alloc, perm, chan>>, a |-> last', o |-> out',
-                            t |-> <<alloc', perm', chan'>>]))
+  PrintT("EDGE " \o ToJson([s |-> <<alloc, perm, chan, resv>>, a |-> last', o |-> out',
+                            t |-> <<alloc', perm', chan', resv'>>]))
 =============================================================================
